@@ -20,11 +20,25 @@ pub struct ReaderPlan {
     /// a reader that times out now and then: once `fail_at` bytes (or none) were delivered, every n-th
     /// read() call fails without consuming anything and the next call works again (0 = off)
     pub fail_every: u8,
+    /// which io::ErrorKind the fault carries (0 Other, 1 TimedOut, 2 WouldBlock, 3 BrokenPipe, 4 UnexpectedEof, 5 InvalidData, 6 ConnectionReset)
+    pub fault_kind: u8,
+}
+
+pub fn fault_kind(k: u8) -> ErrorKind {
+    match k % 7 {
+        0 => ErrorKind::Other,
+        1 => ErrorKind::TimedOut,
+        2 => ErrorKind::WouldBlock,
+        3 => ErrorKind::BrokenPipe,
+        4 => ErrorKind::UnexpectedEof,
+        5 => ErrorKind::InvalidData,
+        _ => ErrorKind::ConnectionReset,
+    }
 }
 
 impl ReaderPlan {
     pub fn to_json(&self) -> J {
-        json!({"chunks": self.chunks, "interrupt_every": self.interrupt_every, "fail_at": self.fail_at, "fail_forever": self.fail_forever, "fail_every": self.fail_every})
+        json!({"chunks": self.chunks, "interrupt_every": self.interrupt_every, "fail_at": self.fail_at, "fail_forever": self.fail_forever, "fail_every": self.fail_every, "fault_kind": self.fault_kind})
     }
     pub fn from_json(j: &J) -> ReaderPlan {
         ReaderPlan {
@@ -33,6 +47,7 @@ impl ReaderPlan {
             fail_at: j["fail_at"].as_u64().map(|x| x as u32),
             fail_forever: j["fail_forever"].as_bool().unwrap_or(false),
             fail_every: j["fail_every"].as_u64().unwrap_or(0) as u8,
+            fault_kind: j["fault_kind"].as_u64().unwrap_or(0) as u8,
         }
     }
     pub fn splits(&self) -> bool {
@@ -53,13 +68,14 @@ pub fn plan(with_faults: bool) -> BoxedStrategy<ReaderPlan> {
         Just(None).boxed()
     };
     let every = if with_faults { prop_oneof![3 => Just(0u8), 1 => 2u8..6].boxed() } else { Just(0u8).boxed() };
-    (chunks, intr, fail, any::<bool>(), every)
-        .prop_map(|(chunks, interrupt_every, fail_at, fail_forever, fail_every)| ReaderPlan {
+    (chunks, intr, fail, any::<bool>(), every, 0u8..7)
+        .prop_map(|(chunks, interrupt_every, fail_at, fail_forever, fail_every, fault_kind)| ReaderPlan {
             chunks,
             interrupt_every,
             fail_at,
             fail_forever,
             fail_every,
+            fault_kind,
         })
         .boxed()
 }
@@ -119,7 +135,7 @@ impl Read for PlanReader<'_> {
         } else if let Some(at) = self.plan.fail_at {
             if self.pos >= at as usize && (self.plan.fail_forever || !self.failed_once) {
                 self.failed_once = true;
-                return Err(Error::new(ErrorKind::Other, "generated I/O fault"));
+                return Err(Error::new(fault_kind(self.plan.fault_kind), "generated I/O fault"));
             }
         }
         if self.pos >= self.data.len() {
